@@ -281,9 +281,28 @@ func init() {
 			}
 		}
 		// ---------- (B) the section chunker
-		for it := 0; it < n; it++ {
+		// after the random documents: heading ladders (1 > 2 > 3 > 4, 4 > 5, 5 > 6, 6, one heading and its text per page)
+		// with every level a section of its own, from a generator state of their own
+		drng := NewRNG(0xC12D)
+		outerRng := rng
+		for it := 0; it < n+n/5+6; it++ {
+			rng := outerRng
+			var ladder []int
+			introList := false // a list introduction as the last paragraph of a page, the (long) list alone on the next page
+			if it >= n {
+				rng = drng
+				if (it-n)%2 == 0 {
+					ladder = []int{1, 2, 3, 4, 4, 5, 5, 6, 6}[:rng.Range(5, 9)]
+				} else {
+					introList = true
+				}
+			}
+			g.rng = rng
 			cfg := rag.DefaultChunkerConfig()
 			cfg.MinHeadingLevel = rng.Range(1, 4)
+			if ladder != nil {
+				cfg.MinHeadingLevel = rng.Range(4, 6)
+			}
 			cfg.MaxChunkSize = []int{80, 150, 400, 2000}[rng.Intn(4)]
 			cfg.MinChunkSize = []int{0, 10, 40, 100}[rng.Intn(4)]
 			cfg.TargetChunkSize = cfg.MaxChunkSize / 2
@@ -293,6 +312,12 @@ func init() {
 			}
 			doc := model.NewDocument()
 			np := rng.Range(1, 5)
+			if ladder != nil {
+				np = len(ladder)
+			}
+			if introList {
+				np = 2 * rng.Range(1, 2)
+			}
 			pv := VL{}
 			type item struct {
 				anchors []string
@@ -306,29 +331,46 @@ func init() {
 			for pi := 0; pi < np; pi++ {
 				page := model.NewPage(612, 792)
 				page.Number = pi + 1
-				if rng.Chance(1, 8) {
+				if ladder == nil && !introList && rng.Chance(1, 8) {
 					doc.Pages = append(doc.Pages, page)
 					pv = append(pv, L(I(0), L(), L(), L()))
 					continue
 				}
 				lay := &model.PageLayout{}
 				hv, parv, lv := VL{}, VL{}, VL{}
-				for k := rng.Intn(4); k > 0; k-- {
+				hk := rng.Intn(4)
+				if ladder != nil {
+					hk = 1
+				}
+				if introList {
+					hk = (pi + 1) % 2 // a heading on the pages with the introduction, none on the pages of the list
+				}
+				for k := hk; k > 0; k-- {
 					a := g.anchor()
 					lvl := rng.Range(1, 6)
+					if ladder != nil {
+						lvl = ladder[pi]
+					}
 					t := "Head " + a
 					lay.Headings = append(lay.Headings, model.HeadingInfo{Level: lvl, Text: t})
 					hv = append(hv, L(I(lvl), Bs(t)))
 					items = append(items, item{anchors: []string{a}, page: pi + 1, major: lvl <= cfg.MinHeadingLevel, level: lvl, text: t})
 				}
-				for k := rng.Intn(5); k > 0; k-- {
+				pk := rng.Intn(5)
+				if ladder != nil && pk == 0 {
+					pk = 1
+				}
+				if introList {
+					pk = ((pi + 1) % 2) * rng.Range(1, 3)
+				}
+				for k := pk; k > 0; k-- {
 					var as []string
 					size := rng.Range(10, 90)
 					if rng.Chance(1, 4) {
 						size = cfg.MaxChunkSize * rng.Range(1, 3)
 					}
 					t := g.prose(size, &as)
-					if rng.Chance(1, 6) {
+					if rng.Chance(1, 6) || introList && k == 1 {
 						as = as[:1]
 						t = "The following items apply: S" + as[0] + ":"
 					}
@@ -336,14 +378,18 @@ func init() {
 					parv = append(parv, Bs(t))
 					items = append(items, item{anchors: as, page: pi + 1, level: 99})
 				}
-				for k := rng.Intn(3); k > 0; k-- {
+				lk := rng.Intn(3)
+				if introList {
+					lk = pi % 2
+				}
+				for k := lk; k > 0; k-- {
 					var li model.ListInfo
 					var as []string
 					var lines []string
 					for j := rng.Range(1, 4); j > 0; j-- {
 						lvl := rng.Intn(2)
 						var t string
-						if rng.Chance(1, 6) {
+						if rng.Chance(1, 6) || introList && rng.Bool() {
 							t = g.prose(cfg.MaxChunkSize, &as)
 						} else {
 							a := g.anchor()
